@@ -73,15 +73,20 @@ def handleC05 : Handler := fun op j =>
           | .ok Json.null => pure none
           | .error _ => pure none
           | .ok _ => throw "col must be a rational string or null"
-        pure (mem, col)
-      let all := groups.flatMap fun (m, _) => m
+        let listed ← match g.getObjVal? "listed" with
+          | .ok v => v.getNat?
+          | .error _ => pure mem.length
+        if listed < mem.length then throw "cluster lists fewer mutations than it has members"
+        pure (mem, col, listed)
+      let all := groups.flatMap fun (m, _, _) => m
       for i in List.range muts.length do
         if all.count i ≠ 1 then throw s!"mutation {i} is not in exactly one cluster (KeyError)"
       for i in all do
         if i ≥ muts.length then throw s!"cluster member {i} out of range"
-      let pts := groups.map fun (mem, col) =>
+      -- cluster size = number of mutations the cluster file lists for the cluster (`value_counts`)
+      let pts := groups.map fun (mem, col, listed) =>
         let cp := resolveClusterProb col assign low p
-        jPoint (clusterGrid S G (mem.map fun i => grids.getD i [])) cp mem.length
+        jPoint (clusterGrid S G (mem.map fun i => grids.getD i [])) cp listed
       pure (Json.mkObj [("points", Json.arr pts.toArray)])
   | _ => none
 
